@@ -19,8 +19,6 @@ func (w *Proxy) checkAll() {
 	w.checkC01()
 	w.checkC02()
 	w.checkC03()
-	w.checkC09Idle()
-	w.checkC10Idle()
 }
 
 type poolBooks interface {
@@ -226,6 +224,9 @@ func (w *Proxy) checkC03() {
 		case n > 1:
 			s.Violate("C03", "two_replies", "req#%d received %d replies", r.Idx, n)
 		case n == 0 && r.ClientLeftAt == 0:
+			if r.ConnClosedAt == 0 && s.Now()-r.SentAt <= w.bound(r) {
+				break // still within its bound when the run ended (capacity-probe requests): not judged
+			}
 			if r.ConnClosedAt > 0 {
 				s.Violate("C03", "silent_close", "req#%d: MOSN closed the downstream connection at %v without replying (client was still connected)", r.Idx, r.ConnClosedAt)
 			} else {
